@@ -15,6 +15,7 @@ def run(ctx):
         "Counter.WaitIsZero and WaitGroup.Wait are modelled as steps enabled iff the awaited condition holds (condition-variable discipline of Counter: C17); critical sections without blocking calls are single steps",
         "group.go: hand-written model (Group.v) of the counter aggregation in which one Counter.update/set with its whole subscriber chain pool -> group -> parent group is ONE atomic step (the code runs the chain under the valueMutex of every counter on the path, locks taken child -> parent); tied to the code by sequential lockstep histories and free concurrent runs (sub-command group)",
         "option surface (round 2): the effective worker count / cancel flag / panic flag of a pool is computed in Coq from the caller's option list and the constructor (New or Group.CreatePool) by Options.v (defaults, group default, caller's options in order, last wins; theorems C16_group_pool_options, C16_pool_options_resolved); that options.Apply applies options in order and that the shutdown-signal channel is sized after the options is tied to the code by the correspondence only (scripts over option lists, worker counts around and above NumCPU / 2*NumCPU / 4*NumCPU with every worker busy at Shutdown)",
+        "external waiters on the pool's public Queue / PendingTasksCounter (round 2, Waiters.v): a waiter step = lock, test, return or register-and-unlock in one step; the Broadcast of PopOrWait on elementRemoved falls into the dispatcher's pop step; counter waits are steps enabled iff the condition holds (C17); that Stack.Push / SignalShutdown wake with Broadcast (not Signal) is tied to the code by the lockstep scripts of the sub-command waiters only (the Signal variant is refuted in the model: C16_refuted_signal_wakeup)",
         "shutdown termination is proved as absence of non-final stuck states plus progress (C16_shutdown_terminates, C16_shutdown_progress) for every schedule of the repaired model; that every fair maximal run is finite (no livelock) is not proved - covered by the watchdogs of the correspondence runs only",
     ])
     if thorough:
@@ -23,9 +24,11 @@ def run(ctx):
             ctx.corr(hx, ["run", "--n", "1500", "--free", "300"], cases_name="cases%d.v" % k, timeout=900)
         ctx.seed -= 5000
         ctx.corr(hx, ["group", "--n", "1500", "--free", "150"], cases_name="gcases.v", timeout=900)
+        ctx.corr(hx, ["waiters", "--n", "1200"], cases_name="wcases.v", timeout=900)
     else:
         ctx.corr(hx, ["run", "--n", "500", "--free", "60"], timeout=300)
         ctx.corr(hx, ["group", "--n", "150", "--free", "20"], cases_name="gcases.v", timeout=300)
+        ctx.corr(hx, ["waiters", "--n", "60"], cases_name="wcases.v", timeout=300)
     ctx.assumptions += [
         "tasks terminate and block on nothing but their own nested Submit calls (harness: gated tasks are schedule restrictions of the runner, not part of the model's steps)",
         "at least one worker (WithWorkerCount >= 1)",
